@@ -4,9 +4,12 @@
    constructor (with its own rejections) is [servo_ctor].  Order of checks and raise
    points follow the Python text:
 
-     __init__ : min_angle >= max_angle      -> TypeError if either is a non-number,
+     __init__ : not min_angle < max_angle    -> TypeError if either is a non-number,
                                                ValueError if true
-                min_pulse_us >= max_pulse_us -> likewise
+                not min_pulse_us < max_pulse_us -> likewise
+                not all(math.isfinite(b) for the four bounds) -> ValueError: never true here,
+                the numbers of this model are finite (NaN / infinite bounds: Host/ActuatorsX.v,
+                [servo_bounds_accepted]; ints beyond the float range are outside the models)
                 then pin is stored unvalidated, the four bounds through float(),
                 current angle/pulse := the minima.
      write a  : not (min_angle <= a <= max_angle) -> TypeError for a non-number
@@ -51,11 +54,11 @@ Definition servo_ctor (a : servo_args) : servo + exn :=
   let maxa := dflt servo_default_max_angle (a_max_a a) in
   let minp := dflt servo_default_min_pulse (a_min_p a) in
   let maxp := dflt servo_default_max_pulse (a_max_p a) in
-  match py_ge mina maxa with
+  match py_not_lt mina maxa with
   | None => inr TypeError
   | Some true => inr ValueError
   | Some false =>
-      match py_ge minp maxp with
+      match py_not_lt minp maxp with
       | None => inr TypeError
       | Some true => inr ValueError
       | Some false =>
